@@ -3,6 +3,7 @@
 use super::*;
 use crate::engine::{hash_of, run_generated, run_sweep, Stats};
 use crate::fail;
+use crate::gen::twins::{self, CompOp};
 use crate::gen::{self, Pattern, Seed32, SkSpec};
 use crate::libapi::libs;
 use crate::refmodel as rf;
@@ -203,16 +204,99 @@ pub fn check(c: &Case, st: &mut Stats) -> CheckResult {
     judge(libr, &sk, st, &what)
 }
 
+// ---------------------------------------------------------------------------------------------
+// (f) history: a valid key is deserialised, then a malformed near-twin of it that preserves a weak
+// checksum of the encoding (what a "same key as last time, skip validation" shortcut would key on)
+
+#[derive(Clone, Debug, Hash, Serialize, Deserialize)]
+pub struct TwinCase {
+    pub set: u8,
+    pub base: Seed32,
+    /// scaled index of the field that receives the out-of-range raw value
+    pub field: u32,
+    pub bad: u8,
+    pub width: u8,
+    pub op: CompOp,
+    pub gap: u8,
+}
+
+fn twin_strategy() -> impl Strategy<Value = TwinCase> {
+    (0u8..3, gen::seed32(), any::<u32>(), any::<u8>(), prop_oneof![Just(1u8), Just(2), Just(4), Just(8)], twins::comp_op(), 1u8..4)
+        .prop_map(|(set, base, field, bad, width, op, gap)| TwinCase { set, base, field, bad, width, op, gap })
+}
+
+pub fn check_twin(c: &TwinCase, st: &mut Stats) -> CheckResult {
+    let libr = libs()[c.set as usize % 3];
+    let p = libr.p();
+    let valid = rf::keygen_internal(&p, &c.base.bytes()).1;
+    let bits = p.eta_bits();
+    let w = match c.op {
+        CompOp::Poly(_) => 1usize,
+        _ => c.width as usize,
+    };
+    // a field that lies inside one w-byte word
+    let nf = nfields(&p);
+    let mut f = ((u64::from(c.field) * nf as u64) >> 32) as usize;
+    let area = 128 * 8;
+    while (area + f * bits) / (8 * w) != (area + f * bits + bits - 1) / (8 * w) {
+        f = (f + 1) % nf;
+    }
+    let bad_values: Vec<u64> = ((2 * p.eta as u64 + 1)..(1u64 << bits)).collect();
+    let bad = bad_values[c.bad as usize % bad_values.len()];
+    let bit = area + f * bits;
+    let i = (bit / (8 * w)) * w;
+    let shift = bit % (8 * w);
+    let old = {
+        let mut a = [0u8; 8];
+        a[..w].copy_from_slice(&valid[i..i + w]);
+        (u64::from_le_bytes(a) >> shift) & ((1 << bits) - 1)
+    };
+    let delta = match c.op {
+        CompOp::Add => (bad - old) << shift, // old <= 2 eta < bad: no carry out of the field
+        CompOp::Poly(_) => ((bad - old) << shift) & 0xFF,
+        _ => (bad ^ old) << shift,
+    };
+    let gap = match c.op {
+        CompOp::XorRot | CompOp::Poly(_) => 1usize,
+        _ => c.gap as usize,
+    };
+    let j = i + gap * w;
+    if j + w > valid.len() || delta == 0 {
+        return Ok(());
+    }
+    let rots: Vec<u32> = if c.op == CompOp::XorRot { (0..8 * w as u32).collect() } else { vec![0] };
+    st.class(&format!("op={:?}/width={w}", c.op));
+    st.nontrivial(c);
+    for r in rots {
+        let mut twin = valid.clone();
+        twins::compensate(&mut twin, w, c.op, i, j, delta, r);
+        if twin == valid {
+            continue;
+        }
+        match g_sk(libr, &valid)? {
+            Ok(_) => {}
+            Err(e) => fail!(format!("rejects_wellformed:set{}", p.id), "set {}: a generated private key is rejected ({e})", p.id),
+        }
+        st.sample("twin", || json!({"set": p.id, "field": f, "raw_bad_value": bad, "op": format!("{:?}", c.op), "width": w, "first_word_at": i, "second_word_at": j, "rotation": r, "twin_in_range": rf::sk_fields_in_range(&p, &twin)}));
+        judge(libr, &twin, st, &format!("deserialised right after the valid key it was made from; field {f} carries raw value {bad}, a second {w}-byte word at offset {j} compensates ({:?}, rotation {r})", c.op))?;
+    }
+    Ok(())
+}
+
 pub fn run(ctx: &Ctx, rep: &mut Report) {
     rep.assume("oracle: bit arithmetic on the byte string (a raw field value > 2*eta in the s1/s2 area <=> coefficient outside [-eta, eta]); shares no decoding code with the crate or with the reference's skDecode");
     rep.assume("the promise to reject is the crate's own documentation (traits.rs SerDes::try_from_bytes, encodings.rs sk_decode, conversion.rs bit_unpack); FIPS 204 skDecode itself does not reject");
     single_faults(ctx, rep);
     run_generated(ctx, rep, "generated", ctx.n(60_000, 2_000_000), strategy, check);
+    run_generated(ctx, rep, "after_valid_twin", ctx.n(6000, 200_000), twin_strategy, check_twin);
 }
 
 pub fn replay(ctx: &Ctx, sub: &str, case: &Value) -> Option<CheckResult> {
     if sub == "generated" {
         return Some(check(&from_case::<Case>(case), &mut Stats::default()));
+    }
+    if sub == "after_valid_twin" {
+        return Some(check_twin(&from_case::<TwinCase>(case), &mut Stats::default()));
     }
     if let Some(id) = sub.strip_prefix("single_fault_") {
         let libr = crate::libapi::lib(id.parse().ok()?);
